@@ -389,6 +389,11 @@ def validate_traces(module, traces, out, cfg=None, shard=4000, timeout=900,
             verdicts[t['tid']] = {'v': 'REJECT', 'tid': t['tid'],
                                   'what': 'no action of the trace spec '
                                           'matched (no diagnostic printed)'}
+    # what a replay needs to validate the trace again (tools/replay.py)
+    for v in verdicts.values():
+        if v['v'] not in ('ACCEPT',):
+            v['_spec'] = module
+            v['_env'] = dict(env or {})
     return verdicts
 
 
